@@ -42,6 +42,9 @@ func (e *Exec) bigLoad(p Value) *BigV {
 	if !ok {
 		e.unsupported("big.Int model: unexpected representation %T", v)
 	}
+	if b.Cell != nil {
+		return &BigV{V: b.Cell.V, Bits: b.Cell.Bits, Poison: b.Poison}
+	}
 	if b.Poison {
 		if e.inInit {
 			e.poison = true
@@ -63,6 +66,14 @@ func (e *Exec) bigStore(p Value, t *sym.Term, nbits int) Value {
 		e.poison = false
 		e.store(p.(*PtrV), &BigV{V: sym.BV(0, BigW), Bits: 1, Poison: true})
 		return p
+	}
+	if pp := p.(*PtrV); pp.Obj != nil {
+		if cur, ok := e.loadPath(pp.Obj.V, pp.Path).(*BigV); ok && cur.Cell != nil {
+			// limbs shared with by-value copies: the in-place result is visible through all of them
+			cur.Cell.V, cur.Cell.Bits = t, nbits
+			e.store(pp, &BigV{V: t, Bits: nbits, Cell: cur.Cell})
+			return p
+		}
 	}
 	e.store(p.(*PtrV), &BigV{V: t, Bits: nbits})
 	return p
